@@ -298,6 +298,16 @@ impl ClusterHandler for AdminCommHandler {
                 notify_change,
             )?;
 
+            // The resumption records of a fabric the rollback dropped go with it
+            #[cfg(feature = "case-resumption")]
+            if let Some(fab_idx) = removed_fabric {
+                state.resumption.remove_for_fabric(fab_idx);
+                ctx.exchange()
+                    .matter()
+                    .transport()
+                    .notify_resumption_dirty();
+            }
+
             ctx.exchange().matter().transport().notify_session_removed();
 
             Ok::<_, Error>(removed_fabric)
